@@ -724,22 +724,33 @@ def r4_manual_updates(run, w):
          "releasing a self-dependent column before it would be undone by it", ok, fi=fn.fi)
   # the trim itself: rows kept are rows with a changed value
   tr = w.fn("engine.Engine.trim_update_action")
-  rets = H.returns_of(tr.node)
-  ok = len(rets) == 1 and isinstance(rets[0].value, ast.Call) and \
-      endswith(dotted(rets[0].value.func), "BulkUpdateRecord") and len(rets[0].value.args) == 3
-  if ok:
-    rows = rets[0].value.args[1]
-    ok = isinstance(rows, ast.ListComp) and len(rows.generators) == 1 and \
-        isinstance(rows.generators[0].iter, ast.Name)
-    if ok:
-      sub = rows.generators[0].iter.id
-      defs = E.local_defs(tr.node, sub)
-      ok = len(defs) == 1 and isinstance(defs[0], ast.ListComp) and \
-          len(defs[0].generators[0].ifs) == 1 and \
-          isinstance(defs[0].generators[0].ifs[0], ast.Call) and \
-          dotted(defs[0].generators[0].ifs[0].func) == "any" and \
-          "raw_get" in text(defs[0].generators[0].ifs[0]) and \
-          " != " in text(defs[0].generators[0].ifs[0])
+  tflow = H.Flow(tr)
+  tcases = [c for c in H.return_cases(tr.node) if c.value is not None]
+  if len(tcases) != 1:
+    raise AnalysisError("trim_update_action: expected a single returned action")
+  trn = [m.id for m in tr.cfg.nodes if m.stmt is tcases[0].stmt][0]
+  tv = H.resolve(tflow, tcases[0].value, trn)
+  if not (isinstance(tv, ast.Call) and endswith(dotted(tv.func), "BulkUpdateRecord") and
+          len(tv.args) == 3):
+    raise AnalysisError("trim_update_action: the result is not a BulkUpdateRecord(...) call")
+  # the rows of the result: one per index of the kept subset; the subset is filled under the test
+  # "some value differs from the stored one" and under nothing else
+  rows_els = H.elements(tr, tflow, tv.args[1], tflow.node_of(tv))
+  if not rows_els or len(rows_els) != 1 or len(rows_els[0].gens) != 1:
+    raise AnalysisError("trim_update_action: cannot follow how the kept row ids are built")
+  sub_els = H.elements(tr, tflow, rows_els[0].gens[0][1], rows_els[0].nid)
+  if not sub_els:
+    raise AnalysisError("trim_update_action: cannot follow how the kept row subset is built")
+  def differs(t):
+    t = H.inline(tflow, t)
+    return isinstance(t, ast.Call) and dotted(t.func) == "any" and "raw_get" in text(t) and \
+        any(isinstance(x, ast.Compare) and len(x.ops) == 1 and isinstance(x.ops[0], ast.NotEq)
+            for x in ast.walk(t))
+  ok = not rows_els[0].conds
+  for el in sub_els:
+    atoms = [a for (t, p) in el.conds for a in H.split_guard(t, p)]
+    ok = ok and len(el.gens) == 1 and len(atoms) == 1 and atoms[0][1] is True and \
+        differs(atoms[0][0])
   run.ob(R4, tr.qualname, "row_subset = [i ... if any(values[i] != col.raw_get(row_id) ...)]",
          "the trimmed update keeps exactly the rows for which some value differs from the "
          "stored one", ok, fi=tr.fi)
